@@ -615,16 +615,18 @@ def table_row_swapped_jw(row, primary_ops: List, op2idx: Dict):
     # cancel sigma_z as much as possible
     def prepend_sigma_z(op: Op):
         symbol_list = op.split_symbol
+        # the quantum number of sigma_z is zero, with as many components as the model has
+        zero_qn = np.zeros_like(op.qn_list[0])
         if symbol_list[0] == "I":
             assert len(symbol_list) == 1
-            new_op = Op(sigma_z, op.dofs[0], qn=0)
+            new_op = Op(sigma_z, op.dofs[0], qn=[zero_qn])
         elif symbol_list[0] in z_symbols:
             if len(symbol_list) == 1:
-                new_op = Op.identity(op.dofs[0])
+                new_op = Op.identity(op.dofs[0], qn_size=len(zero_qn))
             else:
                 new_op = Op(" ".join(symbol_list[1:]), op.dofs[1:], qn=op.qn_list[1:])
         elif symbol_list[0] in plus_symbols or symbol_list[0] in minus_symbols:
-            new_op = Op(sigma_z + " " + op.symbol, [op.dofs[0]] + op.dofs, qn=[0] + op.qn_list)
+            new_op = Op(sigma_z + " " + op.symbol, [op.dofs[0]] + op.dofs, qn=[zero_qn] + op.qn_list)
         else:
             assert False
         return new_op
